@@ -321,6 +321,30 @@ func runInterrupts(t *kernel.Tape, opt core.Opts, only string) *core.Outcome {
 		}
 	}
 
+	if withID && !storeFailed && !stepLimited && mr.Err == ErrNone && p.State && hasRerun(p) && execsComparable(p, mr) && last.info == nil {
+		// plans with re-run requests: an aborted attempt of a top-level node repeats that node's own
+		// pre-handler (and the state access of its body); nothing else may touch the state again
+		total := 0
+		for s2, n := range env.CritCount {
+			if env.StateLineage[s2] == "" && s2.Tag != "r1" {
+				total += n
+			}
+		}
+		allowed := mr.StateN[""]
+		for _, e := range env.Execs {
+			if e.Tag != "r0" || !e.Aborted || strings.Contains(e.Path, "/") {
+				continue
+			}
+			allowed++ // the pre-handler that rebuilds the input
+			if n := p.node(e.Path); n != nil && n.UseState {
+				allowed++
+			}
+		}
+		if total > allowed {
+			viol("C05/state-handler-executed-again", fmt.Sprintf("the uninterrupted run makes %d handler/ProcessState invocations on the top-level state and the aborted attempts of re-run nodes account for %d more; the history with %d interrupts made %d:\n%s", mr.StateN[""], allowed-mr.StateN[""], nInt, total, strings.Join(env.HandlerLog, "\n")))
+		}
+	}
+
 	// ---- a fresh run on the same compiled object, started while the first one is interrupted
 	if fresh != nil {
 		o.Stat("probe.fresh_run_on_kept_object", 1)
@@ -631,7 +655,7 @@ func init() {
 	core.Register(&core.Profile{
 		ID: "C05", Engine: "graphsim", Quick: 1500, Thorough: 40000, ThoroughSeeds: 3,
 		Run:  func(t *kernel.Tape, o core.Opts) *core.Outcome { return runInterrupts(t, o, "C05") },
-		Rule: "each run draws a plan in any mode, interrupt-before/after sets at every nesting level, nodes that answer InterruptAndRerun on their first 1-2 attempts (their pre-handler rebuilds the input from state), a paradigm per call, and one schedule; the history is: call with a checkpoint id, on interrupt throw the runnable away, compile the plan again, resume through a store that keeps only bytes, until the run completes; oracle: final output, multiset of non-aborted executions and the state counter equal the uninterrupted run of the same plan (reference model), bounded number of calls; 2 in 5 histories carry a typed nil pointer in an interface-typed slot of the input; nested-graph nodes have state handlers; the history may not make more handler/ProcessState invocations than the uninterrupted run; 1 in 12 histories types some outputs as any (known finding); half of the histories keep the compiled object between the calls, and after the first interrupt a fresh run under another checkpoint id is started on it (must behave like the first call; compared in full for pure Pregel plans); the state carries a map keyed by a named string type; successors of nodes with an output key may read it with an input key",
+		Rule: "each run draws a plan in any mode, interrupt-before/after sets at every nesting level, nodes that answer InterruptAndRerun on their first 1-2 attempts (their pre-handler rebuilds the input from state), a paradigm per call, and one schedule; the history is: call with a checkpoint id, on interrupt throw the runnable away, compile the plan again, resume through a store that keeps only bytes, until the run completes; oracle: final output, multiset of non-aborted executions and the state counter equal the uninterrupted run of the same plan (reference model), bounded number of calls; 2 in 5 histories carry a typed nil pointer in an interface-typed slot of the input; nested-graph nodes have state handlers; the history may not make more handler/ProcessState invocations than the uninterrupted run; 1 in 12 histories types some outputs as any (known finding); half of the histories keep the compiled object between the calls, and after the first interrupt a fresh run under another checkpoint id is started on it (must behave like the first call; compared in full for pure Pregel plans); the state carries a map keyed by a named string type; successors of nodes with an output key may read it with an input key; in plans with re-run requests only the aborted attempts may repeat handler invocations",
 		Real: append([]string{"internal/serialization (checkpoint bytes)"}, graphReal...), Stub: append([]string{"checkpoint store (in-memory byte map)"}, graphStub...),
 		Faults: []string{"interrupt before", "interrupt after", "interrupt and rerun", "nested interrupt", "repeated interrupts", "restart with only durable bytes", "paradigm change across resume"},
 	})
